@@ -63,9 +63,48 @@ def case_ll(B, cfg):
         ll.fix_parameters(fixed)
         theta = [t for k, t in enumerate(theta) if k not in fix]
         B.fact('n_parameters after fixing', ll.n_parameters() == len(theta))
+    if cfg.get('history'):
+        # evaluations with sensitivities and fix / release calls in a row
+        # (no plain evaluation in between): the state the sensitivity switch
+        # is left in must not matter
+        full = list(theta)
+        names = ll.get_parameter_names()
+        fixed_idx = set()
+        for step in cfg['history']:
+            if step[0] == 's1':
+                cur = [t for k, t in enumerate(full) if k not in fixed_idx]
+                try:
+                    ll.evaluateS1(ps.arr(B, cur))
+                except Exception as e:
+                    B.fact('no-exception:evaluateS1 during the history',
+                           False, repr(e))
+                    return
+            elif step[0] == 'fix':
+                ll.fix_parameters({names[k]: full[k] for k in step[1]})
+                fixed_idx |= set(step[1])
+            elif step[0] == 'release':
+                ll.fix_parameters({names[k]: None for k in step[1]})
+                fixed_idx -= set(step[1])
+        theta = [t for k, t in enumerate(full) if k not in fixed_idx]
+        B.fact('n_parameters after the history',
+               ll.n_parameters() == len(theta))
     # S1 first on a fresh object, then value (the other call order)
     xa = ps.arr(B, theta)
-    s_first, _ = ll.evaluateS1(xa)
+    try:
+        s_first, g_first = ll.evaluateS1(xa)
+    except Exception as e:
+        B.fact('no-exception:evaluateS1 first', False, repr(e))
+        return
+    if cfg.get('history'):
+        # the gradient returned by the first evaluation after the history
+        g_first = [x for x in g_first]
+        _, g = B.grad(lambda xs: ll(ps.arr(B, xs)), theta)
+        B.fact('first gradient after the history: length',
+               len(g_first) == len(theta), '%d' % len(g_first))
+        if len(g_first) == len(theta):
+            for k in range(len(theta)):
+                B.eq('first gradient after the history [%d] = d value / d '
+                     'x%d' % (k, k), g_first[k], g[k])
     B.eq('likelihood: value after S1-first = S1 score', ll(xa), s_first)
     _check_grad(B, ll, theta, 'likelihood')
     if cfg.get('posterior', True):
@@ -163,6 +202,26 @@ def case_guard(B, cfg):
     B.fact('gradient length', np.shape(sens) == (len(theta),))
 
 
+def histories():
+    """gradient evaluations and fix / release calls in a row"""
+    H = [[('s1',), ('fix', [0])], [('s1',), ('fix', [1])],
+         [('s1',), ('fix', [2])], [('s1',), ('fix', [0, 2])],
+         [('fix', [0]), ('s1',), ('release', [0]), ('fix', [1])],
+         [('fix', [1]), ('s1',), ('release', [1])],
+         [('fix', [0, 1]), ('s1',), ('release', [0])],
+         [('s1',), ('fix', [0]), ('s1',), ('fix', [1])],
+         [('fix', [2]), ('s1',), ('fix', [0]), ('release', [2])]]
+    out = []
+    for k, h in enumerate(H):
+        out.append(('ll', 'case_ll', dict(
+            ems=[refs.ERROR_MODELS[k % 4]], times=[[1.0, 2.5]], history=h,
+            posterior=False), {}))
+        out.append(('ll', 'case_ll', dict(
+            ems=[refs.ERROR_MODELS[(k + 1) % 4], 'Gaussian'],
+            times=[[1.0], [0.0, 1.0]], history=h, posterior=False), {}))
+    return out
+
+
 def jobs(tier):
     out = []
     pairs = list(itertools.product(refs.ERROR_MODELS, repeat=2))
@@ -184,6 +243,7 @@ def jobs(tier):
             for fix in ([0], [2], [0, 2], [1, 2]):
                 out.append(('ll', 'case_ll', dict(
                     ems=[e], times=[[1.0, 2.5]], fix=fix), {}))
+        out += histories()
         comps = c02.compositions(2, [2])
         sub = ['gaussian', 'lognormal_nc', 'pooled', 'hetero']
         comps += [[hier.unit(a), hier.unit(b), hier.unit(c)]
@@ -212,6 +272,7 @@ def jobs(tier):
                     ems=list(pairs[k % 16]), times=[t0, t1],
                     posterior=(k % 3 == 0)), {}))
                 k += 1
+        out += histories()
         for e in pairs:
             for fix in ([0], [2], [0, 2], [1, 3], [2, 3]):
                 out.append(('ll', 'case_ll', dict(
